@@ -88,7 +88,12 @@ pub fn build_env() -> Env {
     let mut s = Store::default();
     let mut b9 = spec_b9();
     b9.config.ir.protocol_origination_fee = I80F48::ZERO;
-    let w = build_world_in(&mut s, &WorldSpec::new("G", vec![spec_b6(), b9, spec_bf(100, 5000)], &["u0", "u1", "seeder"]));
+    // bank 3 (BD) becomes a Drift-backed bank further down (venue.rs); nobody holds a position in it in the base state
+    let mut bd = spec_b6();
+    bd.label = "BD".into();
+    bd.mint = MintSpec::spl("bd", 6);
+    let w = build_world_in(&mut s, &WorldSpec::new("G", vec![spec_b6(), b9, spec_bf(100, 5000), bd], &["u0", "u1", "seeder"]));
+    crate::venue::make_drift_bank(&mut s, &w, 3);
     let mut fb6 = spec_b6();
     fb6.label = "FB6".into();
     let mut fb9 = spec_b9();
@@ -208,6 +213,14 @@ fn base(e: &Env) -> Store {
     e.s.clone()
 }
 
+/// u0 holds a position in the Drift-backed bank (deposited through the real drift_deposit)
+pub fn drift_prep(e: &Env) -> Store {
+    let mut s = e.s.clone();
+    let sg = e.w.users[0].authority;
+    must(&mut s, crate::venue::deposit_tx(&e.w, &e.s, 0, 3, 50_000_000, sg), "drift_deposit for the drift_withdraw goldens");
+    s
+}
+
 /// u0 of the main group is made unhealthy (debt asset x1.9) — liquidatable, not bankrupt
 pub fn unhealthy(e: &Env) -> Store {
     let mut s = e.s.clone();
@@ -319,6 +332,34 @@ pub fn goldens() -> Vec<Golden> {
             s
         }),
     ));
+    // venue instructions through the harness's Drift stand-in (venue.rs)
+    v.push(Golden {
+        name: "drift_deposit",
+        role: Role::Authority(0),
+        kind: user,
+        subject: Some(0),
+        prep: Box::new(base),
+        make: Box::new(|e, s, signer| crate::venue::deposit_tx(&e.w, s, 0, 3, 50_000_000, signer)),
+        banks: vec![3],
+    });
+    v.push(Golden {
+        name: "drift_withdraw",
+        role: Role::Authority(0),
+        kind: user_r,
+        subject: Some(0),
+        prep: Box::new(drift_prep),
+        make: Box::new(|e, s, signer| crate::venue::withdraw_tx(&e.w, s, 0, 3, 10_000_000, false, signer)),
+        banks: vec![3],
+    });
+    v.push(Golden {
+        name: "drift_withdraw(withdraw_all)",
+        role: Role::Authority(0),
+        kind: user_r,
+        subject: Some(0),
+        prep: Box::new(drift_prep),
+        make: Box::new(|e, s, signer| crate::venue::withdraw_tx(&e.w, s, 0, 3, 0, true, signer)),
+        banks: vec![3],
+    });
     // liquidation: the liquidator (u1) is the acting account
     v.push(Golden {
         name: "lending_account_liquidate",
